@@ -2673,8 +2673,14 @@ def state_codes_witness(ctx, which=("squeue", "sacct", "bjobs", "qstat")):
 # --------------------------------------------------------------------------- the local pool's task coroutine under fault injection
 # what the witness task prints: one line of 70000 bytes (a progress bar that only emits carriage returns, minified JSON, base64 -w0) and a last line without a newline
 TASK_STDOUT = b"x" * 70000 + b"\nlast line, no newline at the end"
-TASK_STDERR = b"warning: something\n"
+TASK_STDERR = b"warning: something is off\n" * 3000       # 75000 bytes: more than a pipe holds
 STREAM_LIMIT = 2 ** 16       # asyncio's default StreamReader limit: readline()/readuntil()/iteration fail on a longer line
+PIPE_CAPACITY = 2 ** 16      # what the kernel buffers for a pipe nobody reads; a process that has written more blocks in write()
+
+
+class Hang(Exception):
+    """The evaluated coroutine waits for something that cannot happen (the process cannot exit while it is blocked writing to a pipe nobody drains).  Not an
+    exception of the interpreted program: no handler of the program sees it."""
 
 
 class StreamModel:
@@ -2684,15 +2690,29 @@ class StreamModel:
     def __init__(self, data):
         self.data = data
         self.pos = 0
+        self.peer = None          # the process's other pipe
+        self.concurrent = lambda: False     # is the code that reads running as one of several concurrent tasks (so the peer may be drained at the same time)?
+
+    def unread(self):
+        return len(self.data) - self.pos
+
+    def _eof_reachable(self):
+        """End-of-file on a pipe means the process closed it - it exited.  It cannot exit while it is blocked writing the other pipe."""
+        if self.peer is not None and self.peer.unread() > PIPE_CAPACITY and not self.concurrent():
+            raise Hang(f"end of {'stdout' if self.data is TASK_STDOUT else 'stderr'} is awaited while {self.peer.unread()} bytes are waiting in the other pipe, which nobody reads: "
+                       f"the process blocks in write() once the pipe holds {PIPE_CAPACITY} bytes, never exits and never closes the pipe being read")
 
     def read(self, n=-1):
         end = len(self.data) if n is None or n < 0 else min(len(self.data), self.pos + n)
+        if end == self.pos or n is None or n < 0:
+            self._eof_reachable()
         chunk, self.pos = self.data[self.pos:end], end
         return chunk
 
     def readuntil(self, sep=b"\n"):
         i = self.data.find(sep, self.pos)
         if i < 0:
+            self._eof_reachable() if len(self.data) - self.pos <= STREAM_LIMIT else None
             if len(self.data) - self.pos > STREAM_LIMIT:
                 self.pos = len(self.data)
                 raise Raised("LimitOverrunError", "Separator is not found, and chunk exceed the limit")
@@ -2726,6 +2746,7 @@ class _TaskInterp(PureInterp):
 
     def __init__(self, ctx, hooks, cancel_at=None):
         super().__init__(ctx, hooks=hooks, max_depth=14)
+        self.concurrent = 0
         self.cancel_at = cancel_at
         self.awaits = 0
         self.await_log = []
@@ -2740,12 +2761,34 @@ class _TaskInterp(PureInterp):
             inner = n.args[0].func
             iname = inner.attr if isinstance(inner, ast.Attribute) else inner.id if isinstance(inner, ast.Name) else None
             if iname in self._own_coroutines(module):
+                self.concurrent += 1
                 try:
                     return Obj("aiotask", spawned=True, value=self.eval(n.args[0], env, module, depth), exc=None)
                 except Raised as exc:
                     if exc.kind == "CancelledError":
                         raise
                     return Obj("aiotask", spawned=True, value=None, exc=exc)
+                finally:
+                    self.concurrent -= 1
+        if canon in ("asyncio.gather", "asyncio.wait") and n.args:
+            # the coroutines handed to gather()/wait() run concurrently with each other
+            self.concurrent += 1
+            try:
+                return super().e_Call(n, env, module, depth)
+            finally:
+                self.concurrent -= 1
+        if canon == "asyncio.wait_for":
+            try:
+                return super().e_Call(n, env, module, depth)
+            except Hang:
+                # what is waited for never finishes: the time limit, if there is one, is what ends the wait
+                tnode = next((k.value for k in n.keywords if k.arg == "timeout"), n.args[1] if len(n.args) > 1 else None)
+                tval = self.eval(tnode, env, module, depth) if tnode is not None else None
+                if tval is None:
+                    raise
+                self.events.append(("wait_for", tval))
+                self.events.append(("timed-out",))
+                raise Raised("TimeoutError", "time limit (the awaited operation never finishes)")
         return super().e_Call(n, env, module, depth)
 
     def _settle(self, v):
@@ -2865,7 +2908,19 @@ def eval_task(ctx, deps=None, rc=0, timeout=False, spawn_fails=False, log_fails=
     def h_communicate(recv, *a, **k):
         cur = states.get(7)
         ev.append(("communicate", cur.member if isinstance(cur, EnumVal) else cur))
-        return ("COMM", (proc.stdout.read(), proc.stderr.read()))
+        interp.concurrent += 1          # communicate() drains both pipes at the same time
+        try:
+            return ("COMM", (proc.stdout.read(), proc.stderr.read()))
+        finally:
+            interp.concurrent -= 1
+
+    def h_proc_wait(recv, *a, **k):
+        # the process exits only when everything it printed fitted into the pipes or was read
+        if recv is proc and "spawn" in [e[0] for e in ev] and not any(e[0] in ("killpg", "proc.kill") for e in ev) and not getattr(interp, "concurrent", 0):
+            for s_ in (proc.stdout, proc.stderr):
+                if s_.unread() > PIPE_CAPACITY:
+                    raise Hang(f"proc.wait() is awaited while {s_.unread()} bytes are waiting in a pipe nobody reads: the process blocks in write() and never exits")
+        ev.append(("proc.wait",))
 
     def h_open(path, mode="r", *a, **k):
         mode = k.get("mode", mode)
@@ -2891,7 +2946,7 @@ def eval_task(ctx, deps=None, rc=0, timeout=False, spawn_fails=False, log_fails=
         "attr:acquire": lambda recv, *a, **k: ev.append(("acquire",)),
         "attr:release": lambda recv, *a, **k: ev.append(("release",)),
         "attr:communicate": h_communicate,
-        "attr:wait": lambda recv, *a, **k: ev.append(("proc.wait",)),
+        "attr:wait": h_proc_wait,
         "attr:done": lambda recv, *a, **k: getattr(recv, "dep", None) in finished, "attr:cancelled": lambda recv, *a, **k: False,
         "attr:kill": lambda recv, *a, **k: ev.append(("proc.kill",)), "attr:terminate": lambda recv, *a, **k: ev.append(("proc.terminate",)),
         "attr:send_signal": lambda recv, *a, **k: ev.append(("proc.send_signal", a)),
@@ -2902,6 +2957,7 @@ def eval_task(ctx, deps=None, rc=0, timeout=False, spawn_fails=False, log_fails=
         "attr:open": lambda recv, mode="r", *a, **k: h_open(str(recv), k.get("mode", mode)),
         "attr:write": lambda recv, data, *a: ev.append(("write", getattr(recv, "path", None), data)),
         "attr:flush": lambda recv, *a: None, "attr:cancel": lambda recv, *a: ev.append(("task.cancel", getattr(recv, "dep", None))),
+        "attr:close": lambda recv, *a: ev.append(("close", getattr(recv, "path", None))), "attr:fileno": lambda recv: 7, "os.fsync": lambda fd: None,
         "attr:read": lambda recv, n_=-1: recv.read(n_), "attr:readline": lambda recv: recv.readline(), "attr:readuntil": lambda recv, sep=b"\n": recv.readuntil(sep),
         "attr:at_eof": lambda recv: recv.pos >= len(recv.data),
         "attr:readexactly": lambda recv, n_: recv.read(n_),
@@ -2912,9 +2968,13 @@ def eval_task(ctx, deps=None, rc=0, timeout=False, spawn_fails=False, log_fails=
     sched = Obj("scheduler", working_dir=SymPath("/wd"), max_cores=2, tasks=tasks, task_states=states, cores_ressource=sem, **{"__class__": ci}, **pool_as_started(ctx))
     interp = _TaskInterp(ctx, hooks, cancel_at)
     interp.events = ev
-    out = {"events": ev, "raised": None}
+    proc.stdout.peer, proc.stderr.peer = proc.stderr, proc.stdout
+    proc.stdout.concurrent = proc.stderr.concurrent = lambda: interp.concurrent > 0
+    out = {"events": ev, "raised": None, "hang": None}
     try:
         interp.call(th, (7, "NAME.v1", "echo hi", "/work", 5 if timeout else None, (iter(dep_ids) if one_shot else dep_ids)), {}, self_obj=sched)
+    except Hang as exc:
+        out["hang"] = str(exc)
     except Raised as exc:
         out["raised"] = exc.kind
     except Unsupported as exc:
@@ -2965,6 +3025,9 @@ def _task_invariants(label, out):
     for e in ev:
         if e[0] == "gather" and e[1]:
             diffs.append(f"{label}: the dependencies {e[1]} are awaited with asyncio.gather without a shield: cancelling this task while it waits cancels the tasks it depends on")
+    if out.get("hang"):
+        diffs.append(f"{label}: the coroutine never finishes: {out['hang']}; the task stays RUNNING on its core forever (a task that prints more than 64 KiB to each stream)")
+        return diffs
     if out["raised"]:
         diffs.append(f"{label}: the coroutine ends with an unhandled {out['raised']} (the task never reaches a final state and its dependents hang)")
     if out["final"] not in ("COMPLETED", "FAILED", "KILLED", "CANCELLED"):
